@@ -21,7 +21,7 @@ theorem prec_chain_ok : Generated.precChain = [
     ⟨"parseMultiplicativeExpr", "parseUnaryExpr", ["*", "div", "mod"], true, true⟩,
     ⟨"parseUnionExpr", "parsePathExpr", ["|"], true, true⟩] ∧
     Generated.exprEntry = "parseOrExpr" ∧ Generated.unaryOperand = "parseUnionExpr" ∧
-    Generated.unaryIsTimesMinusOne = true := by decide
+    Generated.unaryIsTimesMinusOne = true ∧ Generated.unaryEvenIsDoubleNegation = true := by decide
 
 /-- the stage list the model parser runs (computed from the regenerated chain) is the tier list of
 the Recommendation's grammar: `or < and < =,!= < <,>,<=,>= < +,- < *,div,mod < unary - < |` -/
@@ -48,10 +48,14 @@ theorem tier_loop_stop (f : Nat) (cfg : PCfg) (ops : List String) (rest : List S
     tierLoop (f+1) cfg ops rest acc st = .ok (acc, st) := by
   simp [tierLoop, hop, pure, Except.pure]
 
-/-- unary minus: an odd number of `-` wraps the operand as `x * -1`, an even number cancels -/
+/-- unary minus: an odd number of `-` wraps the operand as `x * -1`; an even non-zero number (the
+toggle is off but the run started at a `-` token) wraps it as `(x * -1) * -1` — the pair cancels
+numerically but the operand is still converted to a number; no `-` leaves the operand as it is -/
 theorem unary_encoding (f : Nat) (cfg : PCfg) (rest : List Stage) (st st1 st2 : PState) (minus : Bool) (x : Ast)
     (hm : skipMinus (f+1) st false = .ok (minus, st1)) (hx : parseChain f cfg rest st1 = .ok (x, st2)) :
-    parseChain (f+1) cfg (.unary :: rest) st = .ok (if minus then .oper "*" x (.num "-1") else x, st2) := by
+    parseChain (f+1) cfg (.unary :: rest) st =
+      .ok (if minus then .oper "*" x (.num "-1")
+           else if st.s.typ == .minus then .oper "*" (.oper "*" x (.num "-1")) (.num "-1") else x, st2) := by
   simp [parseChain, hm, hx, bind, Except.bind, pure, Except.pure]
 
 /-- abbreviations: `.` is `self::node()`, `..` is `parent::node()` (same parse tree node) -/
@@ -82,7 +86,7 @@ theorem parse_tree_stratified {ns : Option (List (String × String))} {f : Nat} 
 open Lemmas.ParserShape in
 /-- the headline: in a stratified tree, for an operator node that is not itself a parenthesised /
 primary sub-expression, the left operand's operator is of the same or a tighter tier and the right
-operand's of a strictly tighter tier (or is the `x * -1` encoding of unary minus) -/
+operand's of a strictly tighter tier (or is the `x * -1` / `(x * -1) * -1` encoding of unary minus) -/
 theorem operands_never_looser {cfg : PCfg} {op : String} {l r : Ast}
     (h : Strat cfg stages (.oper op l r)) (hnp : ¬ FromPath cfg (.oper op l r)) :
     (∀ op' x y, l = .oper op' x y → ¬ FromPath cfg l → tierRank op ≤ tierRank op') ∧
